@@ -278,7 +278,7 @@ func genProgram(r *rand.Rand, o genOpts) prog {
 	case 2:
 		items = append(items, item{T: "end"})
 	}
-	if o.signs > 0 {
+	if o.divzero {
 		// C07: the evaluator at the ORG/END and FOR-count use sites
 		lit := func() []tok {
 			sl, se, sp := g.labels, g.equs, g.pre
@@ -440,6 +440,9 @@ func cmdAsm(args []string) {
 		}
 		if *mode == "c07" {
 			o.signs, o.divzero, o.asserts, o.maxIns = 4, true, true, 4
+		} else if r.Intn(2) == 0 {
+			// C03: signed uses of labels and EQU names ("2*-back", "10+-step" with a negative body)
+			o.signs = 1 + r.Intn(2)
 		}
 		p := genProgram(r, o)
 		w.line(progEvent(r, p, *variants, true, r.Intn(3) == 0))
